@@ -290,7 +290,7 @@ def c14_r7(ctx):
     # inserted only where the list had room or that comparison held.
     A = pm.Alpha(f)
     ins = [c for c in norm.calls_in(f.node) if norm.call_name(c) == "insort"]
-    ok = len(ins) == 1 and A.eq(ins[0], "insort(best, (sortkey, global_docnum))")
+    ok = len(ins) == 1 and A.eq(ins[0], "insort(best, (sortkey, ANY))")
     detail = ""
     if ok:
         fa = guards.Facts(f)
